@@ -13,7 +13,7 @@ var attOnlyRe = regexp.MustCompile(` att=\d+`)
 
 func mk(id, rule string, p Profile, quick, thorough int, mon func(fw.Case, []string) []string) *fw.Prop {
 	return &fw.Prop{
-		ID: id, Rule: rule, Quick: quick, Thorough: thorough, Workers: 8, Subprocess: true, GenInWorker: true,
+		ID: id, Rule: rule, Quick: quick, Thorough: thorough, Workers: 8, Subprocess: true, GenInWorker: true, DeterministicScripts: true,
 		Gen:     func(r *rng.R, tier string) fw.Case { return Generate(r, p) },
 		NewReal: func() fw.Real { return newReal() },
 		Monitor: mon,
